@@ -9,21 +9,26 @@ from vlib.runner import Batch, run_harness
 
 ID = "C06"
 LEAN_PROPS = [f"FcpptProofs.Props.C06.Trunc_{t}" for t in ("u8", "u16", "u32", "u64", "i8", "i16", "i32", "i64")] + [
-    "FcpptProofs.Props.C06.Basic", "FcpptProofs.Props.C06.Arith", "FcpptProofs.Props.C06.Log2", "FcpptProofs.Props.C06.Pow", "FcpptProofs.Props.C06.NextPow"]
+    "FcpptProofs.Props.C06.Basic", "FcpptProofs.Props.C06.Arith", "FcpptProofs.Props.C06.Log2", "FcpptProofs.Props.C06.Pow", "FcpptProofs.Props.C06.NextPow",
+    "FcpptProofs.Props.C06.Casts", "FcpptProofs.Props.C06.Div2", "FcpptProofs.Props.C06.CeilNarrow", "FcpptProofs.Props.C06.Interval", "FcpptProofs.Props.C06.Masks", "FcpptProofs.Props.C06.Enum2", "FcpptProofs.Props.C06.Relations", "FcpptProofs.Props.C06.Bool"]
 LEAN_EXTRA = ["FcpptModel.Gen.Scalar"]
-HARNESS = {"src": "harness/c06.cpp"}
+HARNESS = {"src": "harness/c06.cpp", "flags": []}       # flags: -DVERIF_C06_NO_<GROUP>, set by probe_groups()
 TIE = ("TRANSLATION: lean/FcpptModel/Gen/Scalar.lean is regenerated from /repo's headers on every run by tools/cxx2lean.py "
        "(instantiated clang-14 JSON AST -> Lean over the fixed-width semantics of Prelude/CInt.lean) and every theorem is re-checked "
        "against it; CORRESPONDENCE: the generated definitions and the real templates run on the same inputs (exhaustive 8/16-bit)")
 RULE = ("range/list ops enumerate a domain on both sides and compare FNV digests (refined to single calls on a difference): all values of "
-        "every 8/16-bit source for truncation_check (64 type pairs) and the unary helpers, all 8-bit pairs for binary helpers, boundary "
+        "every 8/16-bit source for truncation_check (64 type pairs + bool destination + 20 pairs with long long / char / wchar_t / charN_t) "
+        "and the unary helpers and casts, all 8-bit pairs for binary helpers (incl. div and ceil_div_signed on the narrow types), boundary "
         "lattice (0, +-1, +-2, 2^k, 2^k+-1, min, max) and seeded random values for 32/64-bit, [0,255]^2 / [-128,127]^2 (quick) resp. "
-        "[0,2047]^2 / [-1024,1023]^2 (thorough) for ceil_div / ceil_div_signed, full 16-bit squares against a 128-bit oracle (thorough). "
+        "[0,2047]^2 / [-1024,1023]^2 (thorough) for ceil_div / ceil_div_signed, full 16-bit squares against a 128-bit oracle (thorough); "
+        "interval_distance: all quadruples over 13-value windows and the ends of every type; every binary/ternary function with ONE object "
+        "bound to all its reference parameters; compile-time helpers (mask_c, shifted_mask_c, ceil_div_static, enum_::size) on fixed tables. "
         "evaluations counts single function evaluations; an op is non-trivial if its domain has more than one point.")
 ASSUMPTIONS = [
     "LP64, two's complement, C++20 integer conversion rules as written in Prelude/CInt.lean (validated by this correspondence, not proved)",
-    "library primitives the translator treats as built in: fcppt::literal, optional::make_if/bind/map, cast::size/to_signed/to_unsigned, "
-    "numeric_limits::min/max, std::min/max/abs, int_to_enum, is_zero",
+    "library primitives the translator treats as built in: fcppt::literal, optional::make_if/bind/map, numeric_limits::min/max, "
+    "std::min/max/abs/swap, tuple::get, is_zero (cast::size/to_signed/to_unsigned/int_to_enum are translated from their bodies)",
+    "interval_distance on int32_t/int64_t is only run where every difference of two of the four operands is representable (both sides answer `guard` otherwise)",
     "enum_::size<Enum>::value enters the translated from_int as a parameter",
 ]
 TRUSTED = ["tools/cxx2lean.py (translator) and clang-14's AST of the instantiations", "harness/c06.cpp, digest protocol"]
@@ -56,7 +61,93 @@ def csv(vs):
     return ",".join(str(v) for v in vs) if vs else "-"
 
 
+# ---------------------------------------------------------------- groups of second-generation instantiations
+# One instantiation that stops compiling must not cost the whole harness (and with it every failing input): each group is
+# probed with a syntax-only compile (0.5 s) before the harness is built; a group that does not compile is switched off
+# (-DVERIF_C06_NO_<GROUP>), its ops are not generated, and the fact is reported as a broken correspondence.
+PROBE_INCLUDES = ["cstdint", "fcppt/bit/mask_c.hpp", "fcppt/bit/shifted_mask_c.hpp", "fcppt/cast/promote_int.hpp", "fcppt/cast/safe_numeric.hpp",
+                  "fcppt/cast/size.hpp", "fcppt/cast/to_signed.hpp", "fcppt/cast/to_unsigned.hpp", "fcppt/cast/truncation_check.hpp",
+                  "fcppt/enum/from_int.hpp", "fcppt/enum/size.hpp", "fcppt/math/ceil_div_signed.hpp", "fcppt/math/ceil_div_static.hpp",
+                  "fcppt/math/div.hpp", "fcppt/math/interval_distance.hpp", "fcppt/tuple/object.hpp"]
+I = ["std::int8_t", "std::int16_t", "std::int32_t", "std::int64_t"]
+U = ["std::uint8_t", "std::uint16_t", "std::uint32_t", "std::uint64_t"]
+PROBES = {
+    "BOOL": [f"(void)fcppt::cast::truncation_check<bool>({t}{{}});" for t in I + U] + [f"(void)fcppt::cast::truncation_check<{t}>(true);" for t in (U[0], U[3], I[0], I[2], I[3])],
+    "NAMED": ["(void)fcppt::cast::truncation_check<long long>(std::int32_t{});", "(void)fcppt::cast::truncation_check<unsigned long long>(std::int64_t{});",
+              "(void)fcppt::cast::truncation_check<char>(std::int32_t{});", "(void)fcppt::cast::truncation_check<std::uint8_t>(char{});",
+              "(void)fcppt::cast::truncation_check<wchar_t>(std::int64_t{});", "(void)fcppt::cast::truncation_check<char8_t>(std::int16_t{});",
+              "(void)fcppt::cast::truncation_check<char16_t>(char32_t{});", "(void)fcppt::cast::truncation_check<std::int16_t>(char16_t{});"],
+    "INTERVAL": [f"(void)fcppt::math::interval_distance<{t}>(fcppt::tuple::object<{t}, {t}>{{{t}{{}}, {t}{{}}}}, fcppt::tuple::object<{t}, {t}>{{{t}{{}}, {t}{{}}}});" for t in I + U],
+    "STATIC": ["(void)fcppt::math::ceil_div_static<std::uint32_t, 7, 2>::value;", "(void)fcppt::math::ceil_div_static<std::uint64_t, 7, 2>::value;",
+               "(void)fcppt::enum_::size<probe_enum_u>::value;", "(void)fcppt::enum_::size<probe_enum_i>::value;"],
+    "MASKS": [f"(void)fcppt::bit::mask_c<{t}, 1>();" for t in U] + [f"(void)fcppt::bit::shifted_mask_c<{t}, 7>();" for t in U],
+    "CASTS": [f"(void)fcppt::cast::size<{d}>({s}{{}});" for g in (I, U) for d in g for s in g]
+             + [f"(void)fcppt::cast::safe_numeric<{g[3]}>({s}{{}});" for g in (I, U) for s in g]
+             + [f"(void)fcppt::cast::to_signed({t}{{}});" for t in U] + [f"(void)fcppt::cast::to_unsigned({t}{{}});" for t in I]
+             + [f"(void)fcppt::cast::promote_int({t}{{}});" for t in I + U],
+    "DIV2": [f"(void)fcppt::math::div({t}{{}}, {t}{{}});" for t in (I[0], I[1], U[0], U[1])]
+            + ["(void)fcppt::math::div(std::int32_t{}, std::uint32_t{});", "(void)fcppt::math::div(std::uint64_t{}, std::int8_t{});"]
+            + [f"(void)fcppt::math::ceil_div_signed<{t}>({t}{{}}, {t}{{}});" for t in (I[0], I[1])],
+    "ENUM2": [f"(void)fcppt::enum_::from_int<probe_enum_i>({t}{{}});" for t in U] + [f"(void)fcppt::enum_::from_int<probe_enum_c>({t}{{}});" for t in U],
+}
+DISABLED = {}       # group -> first error line
+
+
+def probe_groups():
+    from vlib import harness as vh
+    DISABLED.clear()
+    text = "".join(f"#include <{h}>\n" for h in PROBE_INCLUDES)
+    text += "enum class probe_enum_u : std::uint8_t { a, fcppt_maximum = a };\nenum class probe_enum_i { a, b, fcppt_maximum = b };\n"
+    text += "enum class probe_enum_c : std::int8_t { a, b, fcppt_maximum = b };\n"
+    where = {}
+    n = text.count("\n")
+    for g, body in PROBES.items():
+        text += f"void probe_{g}() {{\n"
+        n += 1
+        for l in body:
+            n += 1
+            where[n] = g
+            text += "  " + l + "\n"
+        text += "}\n"
+        n += 1
+    os.makedirs(paths.CACHE, exist_ok=True)
+    src = os.path.join(paths.CACHE, f"c06_probe_{os.getpid()}.cpp")
+    try:
+        with open(src, "w") as f:
+            f.write(text)
+        p = subprocess.run([vh.CXX, "-std=c++20", "-fsyntax-only", "-DFCPPT_STATIC_LINK"] + vh.include_flags() + [src], capture_output=True, text=True)
+        if p.returncode != 0:
+            import re
+            last_error = None
+            for l in p.stderr.split("\n"):
+                m = re.search(r"error: (.*)", l)
+                if m:
+                    last_error = m.group(1)
+                m = re.search(r"c06_probe_\d+\.cpp:(\d+):", l)
+                if m and int(m.group(1)) in where:
+                    DISABLED.setdefault(where[int(m.group(1))], last_error or l.strip())
+    except Exception as e:        # the probe is an optimisation of the report: never an infrastructure error
+        sys.stderr.write(f"WARNING C06 probe: {e}\n")
+    finally:
+        try:
+            os.unlink(src)
+        except OSError:
+            pass
+    HARNESS["flags"] = [f"-DVERIF_C06_NO_{g}" for g in sorted(DISABLED)]
+
+
+def extra_checks(binp, rng, tier, ev):
+    return [{"kind": "broken-correspondence", "theorems": [],
+             "what": f"the {g} instantiations of the harness no longer compile against /repo ({why}); they are switched off, the remaining functions keep their correspondence"}
+            for g, why in sorted(DISABLED.items())]
+
+
+def on(group):
+    return group not in DISABLED
+
+
 def regenerate():
+    probe_groups()
     out = os.path.join(paths.LEAN, "FcpptModel", "Gen", "Scalar.lean")
     rep = os.path.join(paths.CACHE, f"cxx2lean_{os.getpid()}.json")
     os.makedirs(paths.CACHE, exist_ok=True)
@@ -90,7 +181,13 @@ def weight(op):
         if t[0] == "list3":
             return len(t[2].split(",")) ** 3
         if t[0] == "selfcheck":
-            return int(t[2])
+            return int(t[2]) if len(t) == 3 else (int(t[3]) - int(t[2]) + 1) * 65536
+        if t[0] == "list4":
+            return len(t[2].split(",")) ** 4
+        if t[0] == "aliasl":
+            return len(t[2].split(","))
+        if t[0] == "aliasr":
+            return int(t[3]) - int(t[2]) + 1
     except Exception:
         pass
     return 1
@@ -102,6 +199,8 @@ def nontrivial(op, res):
 
 def refine(op):
     t = op.split()
+    if len(t) < 2:
+        return None
     f = t[1]
     if t[0] == "range1":
         a, b = int(t[2]), int(t[3])
@@ -127,10 +226,43 @@ def refine(op):
     if t[0] == "list3":
         vs = t[2].split(",")
         return [f"call {f} {a} {b} {c}" for a in vs for b in vs for c in vs][:400000]
+    if t[0] == "list4":
+        vs = t[2].split(",")
+        return [f"call {f} {a} {b} {c} {d}" for a in vs for b in vs for c in vs for d in vs][:400000]
+    if t[0] == "aliasl":
+        return [f"alias {f} {a}" for a in t[2].split(",")]
+    if t[0] == "aliasr":
+        return [f"alias {f} {a}" for a in range(int(t[2]), int(t[3]) + 1)]
     return None
 
 
-FROM_INT_SIZES = {"u8": [1, 3, 255], "u16": [3, 257, 65535], "u32": [3, 70000], "u64": [3, 5000000000]}
+DIV_MIXED = [("i32", "u32"), ("u32", "i32"), ("i8", "u8"), ("u8", "i64"), ("i64", "u64"), ("u16", "i32"), ("i16", "u64"), ("u64", "i8"), ("i32", "i64"), ("u32", "u64")]
+MASK_C = {"u8": [0, 1, 5, 255], "u16": [0, 256, 65535], "u32": [0, 65536, 4294967295], "u64": [0, 4294967296, 18446744073709551615]}
+SHIFTED_MASK_C = {"u8": [0, 3, 7], "u16": [0, 8, 15], "u32": [0, 16, 31], "u64": [0, 32, 63]}
+STATIC_DIVIDENDS = {"u32": [0, 1, 2, 3, 6, 7, 8, 65535, 65536, 65537, 2147483648, 4294967294, 4294967295],
+                    "u64": [0, 1, 2, 3, 6, 7, 8, 65535, 65536, 65537, 4294967296, 9223372036854775808, 18446744073709551614, 18446744073709551615]}
+ENUM_MAXIMA = {"u8": [0, 2, 254], "u16": [2, 256, 65534], "u32": [2, 69999], "u64": [2, 4999999999], "i8": [2, 127], "i32": [2, 69999, 2147483647]}
+PROMOTED = {"u8": "i32", "i8": "i32", "u16": "i32", "i16": "i32", "u32": "u32", "i32": "i32", "u64": "u64", "i64": "i64"}
+
+
+def small(t, rng=None, n=0):
+    """a short boundary list of t (for the quadruple / triple enumerations)"""
+    vs = {lo(t), lo(t) + 1, -2, -1, 0, 1, 2, 5, hi(t) - 1, hi(t), hi(t) // 2, hi(t) // 2 + 1}
+    if rng is not None:
+        vs |= {rng.range(lo(t), hi(t)) for _ in range(n)}
+    return sorted(v for v in vs if lo(t) <= v <= hi(t))
+
+
+# truncation_check<bool>(S) for an 8-bit S answered some(true) for every value >= 2 (sizeof(bool) == sizeof(S) was taken for
+# "every value fits"): found by these ops, repaired by fix 14450a3 (overloads selected by numeric_limits<>::digits).
+BOOL_DEST_FROM_8BIT = True
+CANON = {"ll": "i64", "ull": "u64", "ch": "i8", "wc": "i32", "c8": "u8", "c16": "u16", "c32": "u32"}
+NAMED_PAIRS = [("ll", "i32"), ("i32", "ll"), ("ll", "u64"), ("ull", "i64"), ("u64", "ull"), ("i64", "ll"), ("ull", "ll"), ("u8", "ll"),
+               ("ch", "i32"), ("ch", "u8"), ("u8", "ch"), ("i8", "ch"), ("wc", "i64"), ("wc", "u32"), ("u16", "wc"), ("c8", "i16"),
+               ("c16", "i32"), ("c16", "c32"), ("c32", "i64"), ("i16", "c16")]
+FROM_INT_SIZES = {"u8": [1, 3, 255], "u16": [3, 257, 65535], "u32": [3, 70000], "u64": [3, 5000000000],
+                  "i8": [3, 128], "i32": [3, 70000, 2147483648]}      # i8 / i32: enums with a signed underlying type (`int` is the default)
+ENUM_UNDER = UNS + ["i8", "i32"]
 
 
 def batches(rng, tier):
@@ -151,10 +283,21 @@ def batches(rng, tier):
         for s in ("u32", "i32", "u64", "i64"):
             vs = [r.range(lo(s), hi(s)) for _ in range(40)] + [r.range(lo(d) - 300, hi(d) + 300) for _ in range(40)]
             ops.append(f"list1 truncation_check_{d}_{s} {csv(sorted(v for v in vs if lo(s) <= v <= hi(s)))}")
-    yield Batch("truncation_check-random", ops, note="seeded random 32/64-bit sources, half of them near the destination's limits")
+    # integral types that are not the fixed-width typedefs (same representation: the model of the typedef is used)
+    for d, s in (NAMED_PAIRS if on("NAMED") else []):
+        cs = CANON.get(s, s)
+        f = f"truncation_check_{d}_{s}"
+        ops.append(f"range1 {f} {lo(cs)} {hi(cs)}" if BITS[cs] <= 16 else f"list1 {f} {csv(lattice(cs))}")
+    for st in (ALL if on("BOOL") else []):
+        if BITS[st] == 8 and not BOOL_DEST_FROM_8BIT:
+            continue
+        ops.append(f"range1 truncation_check_b_{st} {lo(st)} {hi(st)}" if BITS[st] <= 16 else f"list1 truncation_check_b_{st} {csv(lattice(st))}")
+    for d in (("u8", "u64", "i8", "i32", "i64") if on("BOOL") else ()):
+        ops.append(f"range1 truncation_check_{d}_b 0 1")
+    yield Batch("truncation_check-random", ops, note="seeded random 32/64-bit sources, half of them near the destination's limits; 20 pairs with long long / char / wchar_t / char8_t / char16_t / char32_t (all 8/16-bit values, lattice)")
     # ---- from_int
     ops = []
-    for u in UNS:
+    for u in (ENUM_UNDER if on("ENUM2") else UNS):
         for v in UNS:
             xs = lattice(v, extra=[s + d for s in FROM_INT_SIZES[u] for d in (-2, -1, 0, 1, 2)] + [256, 257, 258, 65536, 65537, 65538, (1 << 32) + 1, (1 << 32) + 2])
             if BITS[v] <= 16:
@@ -225,9 +368,13 @@ def batches(rng, tier):
             b = sorted({v for v in b if lo(t) <= v <= hi(t)})
             ops.append(f"list2 {f}_{t} {csv(a)} {csv(b)}")
     yield Batch("binary-random", ops, note="seeded random 32/64-bit operands, small and large divisors")
+    yield from batches2(rng, tier)
     if thorough:
-        ops = [f"selfcheck {f} {65536 * 65536}" for f in ("diff_u16", "diff_i16", "mod_u16")]
-        yield Batch("full-16bit-squares", ops, exhaustive=True, note="all 2^32 operand pairs of the 16-bit instantiation against the harness' 128-bit oracle")
+        ops = []
+        for f in ("diff_u16", "diff_i16", "mod_u16", "bit_test_u16") + (("div_u16", "div_i16", "ceil_div_signed_i16") if on("DIV2") else ()):
+            base = -32768 if "_i16" in f else 0
+            ops += [f"selfcheck {f} {base + r} {base + r + 4095}" for r in range(0, 65536, 4096)]     # 16 lines of 4096 rows each
+        yield Batch("full-16bit-squares", ops, exhaustive=True, note="all 2^32 operand pairs of every binary 16-bit instantiation (diff u16/i16, mod, bit::test, div u16/i16, ceil_div_signed i16) against the harness' wide-arithmetic oracle")
         ops = []
         for f, t in [("mod", "u16"), ("diff", "u16"), ("diff", "i16"), ("bit_test", "u16")]:
             for _ in range(6):
@@ -237,11 +384,167 @@ def batches(rng, tier):
         yield Batch("16bit-windows", ops, note="random 256x256 windows of the 16-bit squares through the model")
 
 
+def batches2(rng, tier):
+    """second generation: narrow / mixed div, interval_distance, the unchecked casts, compile-time masks, aliasing, statics"""
+    thorough = tier == "thorough"
+    # ---- math::div on 8/16-bit operands (quotient computed in int) and on mixed operand types
+    ops = [f"range2 div_{t} {lo(t)} {hi(t)} {lo(t)} {hi(t)}" for t in ("u8", "i8")]
+    for t in ("u16", "i16"):
+        ops.append(f"list2 div_{t} {csv(lattice(t))} {csv(lattice(t))}")
+        ops.append(f"range2 div_{t} {lo(t)} {hi(t)} -3 3" if t == "i16" else f"range2 div_{t} 0 {hi(t)} 0 6")
+        ops.append(f"range2 div_{t} {lo(t)} {lo(t) + 5} {lo(t)} {hi(t)}")
+        ops.append(f"range2 div_{t} {hi(t) - 5} {hi(t)} {lo(t)} {hi(t)}")
+    ops.append("range2 ceil_div_signed_i8 -128 127 -128 127")
+    ops.append(f"list2 ceil_div_signed_i16 {csv(lattice('i16'))} {csv(lattice('i16'))}")
+    ops.append("range2 ceil_div_signed_i16 -32768 32767 -3 3")
+    ops.append("range2 ceil_div_signed_i16 -32768 -32763 -32768 32767")
+    ops.append("range2 ceil_div_signed_i16 32762 32767 -32768 32767")
+    ops.append("range2 ceil_div_signed_i16 -300 300 -300 300")
+    yield Batch("div-narrow", ops if on("DIV2") else [], exhaustive=True, note="all pairs of the 8-bit instantiations; 16-bit: lattice pairs, every dividend against the divisors around 0, every divisor against the extreme dividends")
+    ops = []
+    for l, r in DIV_MIXED:
+        la = lattice(l) if BITS[l] > 8 else list(range(lo(l), hi(l) + 1))
+        ra = lattice(r) if BITS[r] > 8 else list(range(lo(r), hi(r) + 1))
+        ops.append(f"list2 div_{l}_{r} {csv(la)} {csv(ra)}")
+    yield Batch("div-mixed", ops if on("DIV2") else [], note="mixed operand types (the usual arithmetic conversions choose the type of the division): lattice x lattice, 8-bit operands exhaustively")
+    # ---- interval_distance: all quadruples over a window around 0 / the lower end (every relative position of two small
+    # intervals incl. equal ends, containment, touching, inverted intervals) and over the boundary values
+    ops = []
+    r = rng.fork("interval")
+    for t in ALL:
+        w = list(range(-6, 7)) if t[0] == "i" else list(range(0, 13))
+        ops.append(f"list4 interval_distance_{t} {csv(w)}")
+        ops.append(f"list4 interval_distance_{t} {csv(small(t, r, 2))}")
+        if t[0] == "u":
+            ops.append(f"list4 interval_distance_{t} {csv(list(range(hi(t) - 9, hi(t) + 1)))}")
+        else:
+            ops.append(f"list4 interval_distance_{t} {csv(list(range(lo(t), lo(t) + 5)) + list(range(hi(t) - 4, hi(t) + 1)))}")
+    yield Batch("interval_distance", ops if on("INTERVAL") else [], exhaustive=True, note="all quadruples (a1,b1,a2,b2) over 13-value windows, the type's ends and a boundary list: every relative position of two intervals")
+    # ---- the unchecked casts
+    ops = []
+    for grp in (UNS, SIG):
+        for d in grp:
+            for s in grp:
+                fs = ["size"] + (["safe_numeric"] if BITS[d] >= BITS[s] else [])
+                for f in fs:
+                    ops.append(f"range1 {f}_{d}_{s} {lo(s)} {hi(s)}" if BITS[s] <= 16 else f"list1 {f}_{d}_{s} {csv(lattice(s))}")
+    for t in ALL:
+        fs = ["promote_int", "to_signed" if t[0] == "u" else "to_unsigned"]
+        for f in fs:
+            ops.append(f"range1 {f}_{t} {lo(t)} {hi(t)}" if BITS[t] <= 16 else f"list1 {f}_{t} {csv(lattice(t))}")
+    yield Batch("casts", ops if on("CASTS") else [], exhaustive=True, note="cast::size (32 pairs), safe_numeric (20), to_signed, to_unsigned, promote_int: all 8/16-bit values, lattice of the wider sources")
+    r = rng.fork("casts-random")
+    ops = []
+    for grp in (UNS, SIG):
+        for d in grp:
+            for s in grp:
+                if BITS[s] > 16:
+                    vs = sorted({r.range(lo(s), hi(s)) for _ in range(30)} | {r.range(lo(d) - 300, hi(d) + 300) for _ in range(30)})
+                    ops.append(f"list1 size_{d}_{s} {csv([v for v in vs if lo(s) <= v <= hi(s)])}")
+    for t in ("u32", "u64", "i32", "i64"):
+        vs = sorted({r.range(lo(t), hi(t)) for _ in range(60)})
+        ops.append(f"list1 {'to_signed' if t[0] == 'u' else 'to_unsigned'}_{t} {csv(vs)}")
+    yield Batch("casts-random", ops if on("CASTS") else [], note="seeded random 32/64-bit sources")
+    # ---- compile-time masks and statics
+    ops = []
+    if on("MASKS"):
+        ops += [f"call mask_c_{t}_{m}" for t in UNS for m in MASK_C[t]] + [f"call shifted_mask_c_{t}_{b}" for t in UNS for b in SHIFTED_MASK_C[t]]
+    if on("STATIC"):
+        for t in ("u32", "u64"):
+            for a in STATIC_DIVIDENDS[t]:
+                for b in (1, 2, 3, 7, 65536, hi(t) - 1, hi(t)):
+                    ops.append(f"static2 ceil_div_static_{t} {a} {b}")
+        ops += [f"enumsize {u} {m}" for u in ENUM_MAXIMA for m in ENUM_MAXIMA[u]]
+    yield Batch("compile-time", ops, exhaustive=True, note="mask_c / shifted_mask_c instantiations, ceil_div_static against the run-time ceil_div, enum_::size of the harness enums")
+    # ---- one object in every parameter (the functions take references)
+    ops = []
+    for t in ALL:
+        fs = ["clamp", "diff"] + (["div"] if BITS[t] > 16 or on("DIV2") else []) + (["mod", "bit_test"] if t[0] == "u" else [])
+        for f in fs:
+            ops.append(f"aliasr {f}_{t} {lo(t)} {hi(t)}" if BITS[t] <= 16 else f"aliasl {f}_{t} {csv(lattice(t))}")
+    for f in ("ceil_div_u32", "ceil_div_u64", "ceil_div_signed_i32", "ceil_div_signed_i64"):
+        ops.append(f"aliasl {f} {csv(lattice(f.rsplit('_', 1)[1]))}")
+    if on("DIV2"):
+        ops.append("aliasr ceil_div_signed_i8 -128 127")
+        ops.append("aliasr ceil_div_signed_i16 -32768 32767")
+    yield Batch("aliasing", ops, exhaustive=True, note="f(x, x) / clamp(x, x, x) with the same object bound to every reference parameter: all 8/16-bit values, lattice otherwise")
+    if thorough:
+        ops = []
+        for t in (("u16", "i16") if on("DIV2") else ()):
+            for _ in range(8):
+                a = rng.range(lo(t), hi(t) - 255)
+                b = rng.range(lo(t), hi(t) - 255)
+                ops.append(f"range2 div_{t} {a} {a + 255} {b} {b + 255}")
+        for t in (("u8", "i8") if on("INTERVAL") else ()):
+            w = list(range(lo(t), lo(t) + 24))
+            ops.append(f"list4 interval_distance_{t} {csv(w)}")
+            w = list(range(hi(t) - 23, hi(t) + 1))
+            ops.append(f"list4 interval_distance_{t} {csv(w)}")
+            w = list(range(lo(t), hi(t) + 1, 11))
+            ops.append(f"list4 interval_distance_{t} {csv(w)}")
+        yield Batch("second-generation-thorough", ops, note="256x256 windows of the 16-bit div squares; 24-value windows and a stride-11 grid of the 8-bit interval quadruples")
+
+
 # ---------------------------------------------------------------- independent spec oracle (used when an obligation broke)
+
+def wrap(t, v):
+    """C++20 conversion to t: the value congruent to v modulo 2^bits inside t's range"""
+    v %= 1 << BITS[t]
+    return v - (1 << BITS[t]) if t[0] == "i" and v >= 1 << (BITS[t] - 1) else v
+
+
+def tdiv(a, b):
+    return abs(a) // abs(b) * (1 if (a >= 0) == (b >= 0) else -1)
+
+
+def common(l, r):
+    """type of `L / R` (usual arithmetic conversions, LP64)"""
+    pl, pr = PROMOTED[l], PROMOTED[r]
+    if pl == pr:
+        return pl
+    if pl[0] == pr[0]:
+        return pl if BITS[pl] >= BITS[pr] else pr
+    u, sg = (pl, pr) if pl[0] == "u" else (pr, pl)
+    return u if BITS[u] >= BITS[sg] else sg
+
+
+def interval_spec(t, a1, b1, a2, b2):
+    """what interval_distance computes (see Spec/C06.lean); None outside the guard (a signed difference overflows)"""
+    p = PROMOTED[t]
+    if b1 <= b2:
+        a1, b1, a2, b2 = a2, b2, a1, b1
+    parts = [a1 - b2] if a2 <= a1 else [b2 - b1, a1 - a2]
+    if p[0] == "i":
+        if any(not lo(p) <= d <= hi(p) for d in parts):
+            return None
+        return str(wrap(t, max(parts)))
+    return str(wrap(t, max(wrap(p, d) for d in parts)))
+
 
 def spec(f, t, args):
     """Exact mathematical result under the property's guard; None = outside the guard (anything goes)."""
     inr = lambda ty, v: lo(ty) <= v <= hi(ty)
+    if f == "truncation_check_bool":
+        return ("some %d" % args[0]) if 0 <= args[0] <= 1 else "none"
+    if f in ("size", "to_signed", "to_unsigned"):
+        return str(wrap(t[0], args[0]))
+    if f in ("safe_numeric", "promote_int"):
+        return str(args[0])
+    if f == "divmix":
+        c = common(t[0], t[1])
+        a, b = wrap(c, args[0]), wrap(c, args[1])
+        if args[1] == 0:
+            return "none"
+        q = tdiv(a, b)
+        return ("some %d" % q) if inr(c, q) else None
+    if f == "interval_distance":
+        if t in ("i32", "i64") and any(not lo(t) <= x - y <= hi(t) for x in args for y in args):
+            return "guard"      # the harness does not call the function there
+        return interval_spec(t, *args)
+    if f == "mask_c":
+        return str(t[1])
+    if f == "shifted_mask_c":
+        return str(1 << t[1])
     if f == "truncation_check":
         d, s = t
         return ("some %d" % args[0]) if inr(d, args[0]) else "none"
@@ -258,8 +561,8 @@ def spec(f, t, args):
     if f == "div":
         if b == 0:
             return "none"
-        q = abs(a) // abs(b) * (1 if (a >= 0) == (b >= 0) else -1)
-        return ("some %d" % q) if inr(t, q) else None
+        q = tdiv(a, b)
+        return ("some %d" % q) if inr(PROMOTED[t], q) else None
     if f == "mod":
         return "none" if b == 0 else "some %d" % (a % b)
     if f == "diff":
@@ -285,10 +588,30 @@ def spec(f, t, args):
 
 
 def parse_name(name):
-    for f in ("truncation_check", "from_int"):
-        if name.startswith(f + "_"):
-            d, s = name[len(f) + 1:].split("_")
-            return f, (d, s)
+    import re
+    m = re.fullmatch(r"truncation_check_([a-z0-9]+)_([a-z0-9]+)", name)
+    if m and m.group(1) == "b":
+        return "truncation_check_bool", m.group(2)
+    if m and m.group(2) == "b":
+        return "none", None
+    if m and (m.group(1) in CANON or m.group(2) in CANON):
+        return "truncation_check", (CANON.get(m.group(1), m.group(1)), CANON.get(m.group(2), m.group(2)))
+    for f in ("truncation_check", "from_int", "size", "safe_numeric"):
+        m = re.fullmatch(f + r"_([ui]\d+)_([ui]\d+)", name)
+        if m:
+            return f, (m.group(1), m.group(2))
+    m = re.fullmatch(r"div_([ui]\d+)_([ui]\d+)", name)
+    if m:
+        return "divmix", (m.group(1), m.group(2))
+    m = re.fullmatch(r"(mask_c|shifted_mask_c)_(u\d+)_(\d+)", name)
+    if m:
+        return m.group(1), (m.group(2), int(m.group(3)))
+    m = re.fullmatch(r"to_signed_(u\d+)", name)
+    if m:
+        return "to_signed", ("i" + m.group(1)[1:],)
+    m = re.fullmatch(r"to_unsigned_(i\d+)", name)
+    if m:
+        return "to_unsigned", ("u" + m.group(1)[1:],)
     f, t = name.rsplit("_", 1)
     return f, t
 
@@ -300,7 +623,7 @@ def search(binp, rng, tier):
         for s in ALL:
             vs = range(lo(s), hi(s) + 1) if BITS[s] == 8 else lattice(s) + [rng.range(lo(s), hi(s)) for _ in range(30)]
             ops += [f"call truncation_check_{d}_{s} {v}" for v in vs]
-    for u in UNS:
+    for u in (ENUM_UNDER if on("ENUM2") else UNS):
         for v in UNS:
             for s in FROM_INT_SIZES[u]:
                 ops += [f"call from_int_{u}_{v} {x} {s}" for x in lattice(v, extra=[s - 1, s, s + 1, 256, 257, 65536, 65537]) if x >= 0]
@@ -319,13 +642,39 @@ def search(binp, rng, tier):
         vs = [lo(t), lo(t) + 1, -1, 0, 1, 5, hi(t) - 1, hi(t)]
         vs = [v for v in vs if lo(t) <= v <= hi(t)]
         ops += [f"call clamp_{t} {a} {b} {c}" for a in vs for b in vs for c in vs]
+    for st in (ALL if on("BOOL") else []):
+        ops += [f"call truncation_check_b_{st} {v}" for v in (range(lo(st), hi(st) + 1) if BITS[st] == 8 else lattice(st))]
+    # second generation
+    pick = lambda t: lattice(t) if BITS[t] > 8 else list(range(lo(t), hi(t) + 1))
+    few = lambda t: [v for v in pick(t) if abs(v) < 40 or v in (lo(t), hi(t), lo(t) + 1, hi(t) - 1) or (abs(v) & (abs(v) - 1)) == 0 or ((abs(v) + 1) & abs(v)) == 0][:90]
+    for grp in ((UNS, SIG) if on("CASTS") else ()):
+        for d in grp:
+            for s in grp:
+                ops += [f"call size_{d}_{s} {v}" for v in pick(s)]
+                if BITS[d] >= BITS[s]:
+                    ops += [f"call safe_numeric_{d}_{s} {v}" for v in pick(s)]
+    for t in (ALL if on("CASTS") else []):
+        ops += [f"call promote_int_{t} {v}" for v in pick(t)]
+        ops += [f"call {'to_signed' if t[0] == 'u' else 'to_unsigned'}_{t} {v}" for v in pick(t)]
+    for t in (("u8", "i8", "u16", "i16") if on("DIV2") else ()):
+        ops += [f"call div_{t} {a} {b}" for a in few(t) for b in few(t)]
+    for t in (("i8", "i16") if on("DIV2") else ()):
+        ops += [f"call ceil_div_signed_{t} {a} {b}" for a in few(t) for b in few(t)]
+    for l, r in (DIV_MIXED if on("DIV2") else []):
+        ops += [f"call div_{l}_{r} {a} {b}" for a in few(l) for b in few(r)]
+    for t in (ALL if on("INTERVAL") else []):
+        vs = small(t) + ([3, 4, 7] if t[0] == "u" else [-5, 3, 4])
+        vs = sorted(set(v for v in vs if lo(t) <= v <= hi(t)))
+        ops += [f"call interval_distance_{t} {a} {b} {c} {d}" for a in vs for b in vs for c in vs for d in vs]
+    if on("MASKS"):
+        ops += [f"call mask_c_{t}_{m}" for t in UNS for m in MASK_C[t]] + [f"call shifted_mask_c_{t}_{b}" for t in UNS for b in SHIFTED_MASK_C[t]]
     out, deaths = run_harness(binp, ops)
     for op, got in zip(ops, out):
         tk = op.split()
         f, t = parse_name(tk[1])
         args = [int(x) for x in tk[2:]]
         try:
-            want = spec(f, t if not isinstance(t, tuple) else (t[0], t[1]), args)
+            want = spec(f, t, args)
         except Exception:
             want = None
         if want is not None and got != want:
@@ -336,10 +685,13 @@ def search(binp, rng, tier):
 
 MANIFEST = {
     "level_text": ("Machine-checked proof (Lean 4) about definitions that are *regenerated from the C++ source on every run* (clang AST of the "
-                   "instantiated templates -> Lean): truncation_check for all 64 (destination, source) pairs of the 8 fixed-width types, "
-                   "enum_::from_int (16 instantiations), ceil_div, ceil_div_signed (all sign combinations), div, mod, clamp, diff, log2, "
-                   "power_of_2, shifted_mask, bit::test, is_power_of_2, next_power_of_2 return exactly the mathematical result whenever it "
-                   "is representable and never fault; zero divisor / empty interval give none. A code change alters the generated "
+                   "instantiated templates -> Lean): truncation_check for all 64 (destination, source) pairs of the 8 fixed-width types and "
+                   "for bool destinations, enum_::from_int (24 instantiations incl. enums over int / signed char), ceil_div, ceil_div_signed "
+                   "(8..64 bit, all sign combinations), div (all widths and mixed operand types), mod, clamp, diff, log2, "
+                   "power_of_2, shifted_mask, mask_c, shifted_mask_c, bit::test, is_power_of_2, next_power_of_2 return exactly the "
+                   "mathematical result whenever it is representable and never fault; zero divisor / empty interval give none; the unchecked "
+                   "casts size / to_signed / to_unsigned are the modular conversion, safe_numeric / promote_int the identity; "
+                   "interval_distance equals an explicit closed form; 66 corollaries relate the helpers to each other. A code change alters the generated "
                    "definitions and the kernel re-checks every theorem; the generated definitions are additionally run against the real "
                    "templates (exhaustive 8/16-bit domains, lattices, the squares named in the property)."),
     "level_note": ("Trusted: Lean kernel + propext/Classical.choice/Quot.sound; tools/cxx2lean.py and the C++ integer semantics in "
